@@ -36,6 +36,21 @@ for t, f in FILES.items():
     decl_rules.append(dict(path=f, re=r'atomics::atomic<size_t>\s+m_nBucketCountLog2;', count=1))
 
 
+# ---- auxiliary (dummy) node allocation of the two bucket tables (C17)
+SB = 'cds/intrusive/details/split_list_base.h'
+NEWAUX_WHY = 'placement new -> ghost notification + the same default construction'
+PFREE = dict(lit='auto pFree = m_freeList.get();', to='void* pFree = m_freeList.get();', count=1, why='CBMC types `auto` as int; the free-list node pointer is only cast back to aux_node_type*')
+stage.append(dict(kind='fragment', path=SB, name='st_alloc_aux_node', anchor=r'aux_node_type\* alloc_aux_node\(\)', occurrence=0,
+                  rewrites=[dict(re=r'new\(\s*((?:[^()]|\([^()]*\))+?)\s*\) aux_node_type\(\)', to=r'vx_construct( \1 )', count=1, why=NEWAUX_WHY), PFREE]))
+stage.append(dict(kind='fragment', path=SB, name='st_capacity', anchor=r'size_t capacity\(\) const', occurrence=0))
+stage.append(dict(kind='fragment', path=SB, name='exp_alloc_aux_node', anchor=r'aux_node_type\* alloc_aux_node\(\)', occurrence=1,
+                  rewrites=[dict(re=r'new\(\s*((?:[^()]|\([^()]*\))+?)\s*\) aux_node_type\(\)', to=r'vx_construct( \1 )', count=2, why=NEWAUX_WHY), PFREE]))
+stage.append(dict(kind='fragment', path=SB, name='exp_free_aux_node', anchor=r'void free_aux_node\( aux_node_type\* \w+ \)', occurrence=1))
+decl_rules.append(dict(path=SB, re=r'aux_node_segment\(\)\s*: next_segment\( nullptr \)\s*\{\s*aux_node_count\.store\( 0, atomics::memory_order_release \);', count=1))
+decl_rules.append(dict(path=SB, re=r'return reinterpret_cast<aux_node_type\*>\( this \+ 1 \);', count=1))
+decl_rules.append(dict(path=SB, re=r'm_auxNodeList = allocate_aux_segment\(\);', count=1))
+
+
 def g(name, fn, replace=(), defines=(), tier='quick', replay=None, timeout=300):
     w = 'w_' + name
     d = dict(name=name, harness='h_' + w, enforce=[w], replace=list(replace), defines=list(defines), tier=tier, functions=fn,
@@ -70,6 +85,9 @@ groups += [
 groups += [
     dict(name='lemma_growth', harness='h_lemma_growth', enforce=[], replace=['c_regular_hash', 'c_dummy_hash', 'c_bucket_no', 'c_parent_bucket'],
          functions=['lemma over the C27 contracts: doubling the bucket table does not move keys out of reach'], expect=[r'C17\.lemma'], timeout=600, props=['C17']),
+    dict(name='aux_alloc', harness='h_aux_alloc', enforce=[], dfcc=False, functions=['split_list::expandable_bucket_table::alloc_aux_node/free_aux_node', 'split_list::static_bucket_table::alloc_aux_node'],
+         expect=[r'C17\.aux_node_unique'], timeout=900, props=['C17'], unwind=8, replay=dict(driver='replay_aux.cpp', case='aux_alloc', vars=[]),
+         bounded='segments of 2 cells (PARAMETER ABSTRACTION of nSegmentSize), up to 4 segments, 6 allocate/free steps chosen freely; static table of 4 cells; single thread'),
     dict(name='inc_item_count', harness='h_inc_item_count', enforce=[], dfcc=False, functions=['SplitListSet::inc_item_count', 'SplitListSet::max_item_count'],
          expect=[r'C17\.inc_item_count'], timeout=600, props=['C17']),
 ]
@@ -82,9 +100,10 @@ for R in ('swar', 'lookup', 'muldiv'):
 UNIT = dict(
     properties=['C27', 'C17'],
     stage=stage, decl_rules=decl_rules,
-    cxx=['shim.cpp'], c=['contracts.c'], cxxflags=['-Dconstexpr=', '-Dnoexcept=', '-Dexplicit=', '-I/verif/units/bits'],
+    cxx=['shim.cpp', 'shim_aux.cpp'], c=['contracts.c', 'contracts_aux.c'], cxxflags=['-Dconstexpr=', '-Dnoexcept=', '-Dexplicit=', '-I/verif/units/bits'],
     groups=groups,
     sabotage=[
+        dict(name='aux_segment_slot0_not_reserved', quick=True, props=['C17'], target='exp_alloc_aux_node', lit='new_aux_segment->aux_node_count.fetch_add( 1, memory_model::memory_order_relaxed );', to='', count=1, groups=['aux_alloc'], expect_fail=r'C17\.aux_node_unique'),
         dict(name='bucket_no_int_shift', quick=True, target='bucket_no_hp', re=r'size_t\( 1 \) <<|size_t\(1\) <<', to='1 <<', count=1, groups=['bucket_no_hp'],
              expect_fail=r'w_bucket_no_hp\.postcondition|undefined-shift'),
         dict(name='regular_hash_even', target='regular_hash', lit='| size_t(1)', to='& ~size_t(1)', count=1, groups=['regular_hash_swar'],
